@@ -22,6 +22,7 @@ func NewRingBuffer
   ensures inv: rbInv(rb.buf, cap(rb.buf), rb.cur, rb.full)
 
 func (*RingBuffer).Push
+  modifies rb.cur, rb.full, elems(rb.buf)
   requires rb != nil && rbInv(rb.buf, cap(rb.buf), rb.cur, rb.full)
   ensures inv: rbInv(rb.buf, cap(rb.buf), rb.cur, rb.full) && rb.buf == old(rb.buf)
   ensures zero_capacity: len(rb.buf) == 0 ==> rb.cur == old(rb.cur) && rb.full == old(rb.full)
@@ -49,6 +50,7 @@ func (*RingBuffer).Current
   ensures zero_when_not_full: rb != nil && !rb.full ==> e == 0
 
 func (*RingBuffer).Clear
+  modifies rb.cur, rb.full, elems(rb.buf)
   requires rb != nil && rbInv(rb.buf, cap(rb.buf), rb.cur, rb.full)
   ensures as_new: rb.cur == 0 && !rb.full && rb.buf == old(rb.buf) && rbInv(rb.buf, cap(rb.buf), rb.cur, rb.full)
 
@@ -109,6 +111,7 @@ lemma sameSeqSameSet(s []byte, r []byte)
   ensures s_in_r: forall i in 0..len(s): memberOf(r, s[i])
 
 func NewSortedSliceSet
+  modifies elems(elems)
   ensures created: set != nil && fresh(set) && sortedStrict(set.elems) && ref(set.elems) == ref(elems)
 
 // The set model is stated over indices: every element of the new slice is
@@ -138,6 +141,7 @@ lemma deleteSet(s []byte, r []byte, pos int, v int)
   ensures v_gone: !memberOf(r, v)
 
 func (*SortedSliceSet).Add
+  modifies set.elems, backing(set.elems)
   requires set != nil && sortedStrict(set.elems)
   apply_exit insertSet(old(str(set.elems)), str(set.elems), old(rankIn(set.elems, v)), v) when !old(memberOf(set.elems, v))
   apply_exit sameSeqSameSet(old(str(set.elems)), str(set.elems)) when old(memberOf(set.elems, v))
@@ -149,6 +153,7 @@ func (*SortedSliceSet).Add
   ensures has_v: memberOf(set.elems, v)
 
 func (*SortedSliceSet).Delete
+  modifies set.elems, backing(set.elems)
   requires set != nil && sortedStrict(set.elems)
   apply_exit deleteSet(old(str(set.elems)), str(set.elems), old(rankIn(set.elems, v)), v) when old(memberOf(set.elems, v))
   ensures inv: sortedStrict(set.elems)
@@ -168,6 +173,7 @@ func (*SortedSliceSet).Values
   ensures same: set == nil ? isnil(values) : values == set.elems
 
 func (*SortedSliceSet).Clear
+  modifies set.elems, backing(set.elems)
   ensures emptied: set != nil ==> len(set.elems) == 0 && sortedStrict(set.elems)
 
 func (*SortedSliceSet).Equal
@@ -208,15 +214,18 @@ func NewMapSet
     invariant forall x: haskey(set.m, x) ==> (exists k in 0..rangeindex + 1: values[k] == x)
 
 func (*MapSet).Add
+  modifies mapof(set.m)
   requires set != nil && !isnil(set.m)
   ensures members: forall x: haskey(set.m, x) <==> (old(haskey(set.m, x)) || x == v)
   ensures same_map: set.m == old(set.m)
 
 func (*MapSet).Delete
+  modifies mapof(set.m)
   ensures nil_noop: set == nil ==> true
   ensures members: set != nil ==> (forall x: haskey(set.m, x) <==> (old(haskey(set.m, x)) && x != v))
 
 func (*MapSet).Clear
+  modifies mapof(set.m)
   ensures emptied: set != nil && !isnil(set.m) ==> (forall x: !haskey(set.m, x)) && len(set.m) == 0
 
 func (*MapSet).Has
